@@ -169,3 +169,14 @@ CASES += [
                 "    def __init__(self, timeaxis=None, rhoi=None, is_in_rwa=False, name=None):\n        \n        self.is_in_rwa = is_in_rwa\n", 1),
         (_DME8, "            \n        self.is_in_rwa = is_in_rwa\n", "\n", 1)]},
 ]
+
+_ESO8 = "quantarhei/qm/liouvillespace/evolutionsuperoperator.py"
+CASES += [
+    {"name": "state contracted as given, whatever the first time of the axis (the repaired defect)", "kind": "mutant", "rule": "C08-O", "edits": [
+        (_ESO8, "        t0 = self.time.data[0]\n        if (not self.is_in_rwa) or (t0 == 0.0):\n            return target.data\n",
+                "        t0 = 0.0\n        if (not self.is_in_rwa) or (t0 == 0.0):\n            return target.data\n", 1)]},
+    {"name": "conversion from the rotating frame without the phases of the first time (the repaired defect)", "kind": "mutant", "rule": "C08-O", "edits": [
+        (_ESO8, "            Ut0 = numpy.exp(-sgn*1j*HOmega*self.time.data[0])\n", "            Ut0 = numpy.exp(-sgn*1j*HOmega*0.0)\n", 1)]},
+    {"name": "first time of the axis read through its start", "kind": "twin", "edits": [
+        (_ESO8, "            Ut0 = numpy.exp(-sgn*1j*HOmega*self.time.data[0])\n", "            Ut0 = numpy.exp(-sgn*1j*HOmega*self.time.start)\n", 1)]},
+]
